@@ -1,120 +1,192 @@
 /* C18 — truncated files are rejected; failed writes are never reported OK; abort leaves nothing behind (engine E2).
- * MODE 1: real writer produces a file, then a SYMBOLIC cut length k < len; open_buffer / stdio open / mmap open must fail.
- * MODE 2: sink faults — every fwrite/fflush/fclose of the write history forks a failing variant; some writer call must be non-OK.
- * MODE 3: carquet_writer_abort after a prefix of the write history: no live heap object, no file left behind. */
-#include "pq_common.h"
+ * The table shape comes from c18_tables.h: VC_SPECS is a comma-separated list of column specs (one symx_choice picks the table),
+ * VC_ROWS rows in VC_NRG row groups, VC_BATCH rows per write_batch call (page_size 1: every call closes a page), VC_FLAVOUR =
+ * content * 8 + null pattern, CODEC, VC_FILEAPI 0 = carquet_writer_create(path) / 1 = carquet_writer_create_file(FILE*).
+ * VC_MODE 1: the real writer produces the file, then EVERY cut length k < len (symx_choice over the concrete length): open_buffer /
+ *            open by path through stdio / through mmap (VC_OPEN 0/1/2) must fail with a non-OK error code.
+ * VC_MODE 2: sink faults — every fwrite/fflush/fclose of the write history forks failing variants; some writer call must be non-OK.
+ * VC_MODE 3: carquet_writer_abort after every prefix of the call history (optionally with a sink fault somewhere in the prefix or
+ *            in abort's own fclose, optionally after a rejected call): no live heap object, no file left behind (path writers).
+ * VC_MODE 4: a BYTE_ARRAY value ends in <L> "PAR1" with EVERY 32-bit L (symbolic); the prefix cut right behind it is rejected
+ *            unless the independent reference reader accepts that prefix as a complete Parquet file. */
+#include "c18_tables.h"
+#if VC_MODE == 4
+#include "ref_parquet_read.h"
+#endif
 
 #ifndef CODEC
 #define CODEC CARQUET_COMPRESSION_UNCOMPRESSED
 #endif
-#ifndef ROWS
-#define ROWS 4
+#ifndef VC_SPECS
+#define VC_SPECS "Il"
 #endif
-#ifndef SHAPE
-#define SHAPE 0
+#ifndef VC_ROWS
+#define VC_ROWS 4
 #endif
-
-static void table(pq_schema_t* s, pq_column_t* cols) {
-    memset(s, 0, sizeof *s); memset(cols, 0, sizeof(pq_column_t) * PQ_MAXCOLS);
-#if SHAPE == 0          /* INT32 REQUIRED + INT64 OPTIONAL */
-    s->ncols = 2;
-    s->name[0] = "a"; s->type[0] = CARQUET_PHYSICAL_INT32; s->rep[0] = CARQUET_REPETITION_REQUIRED;
-    s->name[1] = "b"; s->type[1] = CARQUET_PHYSICAL_INT64; s->rep[1] = CARQUET_REPETITION_OPTIONAL;
-    for (int i = 0; i < ROWS; i++) { int32_t v = 100 + i; memcpy(cols[0].vals + 4 * i, &v, 4); }
-    int nv = 0;
-    for (int i = 0; i < ROWS; i++) { cols[1].def[i] = (i % 3) != 1; if (cols[1].def[i]) { int64_t v = -5 + 1000 * (int64_t)i; memcpy(cols[1].vals + 8 * nv, &v, 8); nv++; } }
-#elif SHAPE == 2        /* INT32 REQUIRED whose page body contains bytes that look like <huge footer length> "PAR1":
-                           a cut right behind them presents a prefix ending in a plausible-looking file tail */
-    s->ncols = 2;
-    s->name[0] = "a"; s->type[0] = CARQUET_PHYSICAL_INT32; s->rep[0] = CARQUET_REPETITION_REQUIRED;
-    s->name[1] = "b"; s->type[1] = CARQUET_PHYSICAL_INT64; s->rep[1] = CARQUET_REPETITION_REQUIRED;
-    {
-        static const int32_t av[8] = {1, -8, 0x31524150, -1, 0x31524150, 12, 0x31524150, 5};
-        for (int i = 0; i < ROWS; i++) { int32_t v = av[i % 8]; memcpy(cols[0].vals + 4 * i, &v, 4); }
-        for (int i = 0; i < ROWS; i++) { int64_t v = ((int64_t)0x31524150 << 32) | 0xFFFFFFFCu; memcpy(cols[1].vals + 8 * i, &v, 8); }
-    }
-#else                   /* BYTE_ARRAY REQUIRED + DOUBLE REQUIRED */
-    s->ncols = 2;
-    s->name[0] = "s"; s->type[0] = CARQUET_PHYSICAL_BYTE_ARRAY; s->rep[0] = CARQUET_REPETITION_REQUIRED;
-    s->name[1] = "d"; s->type[1] = CARQUET_PHYSICAL_DOUBLE; s->rep[1] = CARQUET_REPETITION_REQUIRED;
-    for (int i = 0; i < ROWS; i++) {
-        cols[0].ba_bytes[2 * i] = 'a' + i; cols[0].ba_bytes[2 * i + 1] = 'z';
-        cols[0].ba[i].data = cols[0].ba_bytes + 2 * i; cols[0].ba[i].length = i % 3;
-        double d = 1.5 * i; memcpy(cols[1].vals + 8 * i, &d, 8);
-    }
+#ifndef VC_NRG
+#define VC_NRG 2
 #endif
-    cols[0].nrows = cols[1].nrows = ROWS;
-}
+#ifndef VC_BATCH
+#define VC_BATCH 0
+#endif
+#ifndef VC_PS
+#define VC_PS 1
+#endif
+#ifndef VC_FLAVOUR
+#define VC_FLAVOUR 0
+#endif
+#ifndef VC_FILEAPI
+#define VC_FILEAPI 0
+#endif
+#ifndef VC_OPEN
+#define VC_OPEN 0
+#endif
+#ifndef VC_STATS
+#define VC_STATS 1
+#endif
 
 #define PATH "/mem/t.parquet"
-static uint8_t filebuf[4096];
+#define FILECAP 8192
+static uint8_t filebuf[FILECAP];
+static pq_schema_t S; static pq_column_t C[PQ_MAXCOLS];
+
+static carquet_reader_t* open_prefix(const uint8_t* buf, size_t k, carquet_error_t* err) {
+    memset(err, 0, sizeof *err);
+#if VC_OPEN == 0
+    return carquet_reader_open_buffer(buf, k, NULL, err);
+#else
+    symx_file_put("/mem/cut.parquet", buf, k);
+    carquet_reader_options_t ro; carquet_reader_options_init(&ro);
+    ro.use_mmap = (VC_OPEN == 2);
+    return carquet_reader_open("/mem/cut.parquet", &ro, err);
+#endif
+}
+
+/* carquet opened a proper prefix (buf[0..k)).  complete = the prefix is itself a complete Parquet file (then accepting it is allowed).
+ * Otherwise it is a violation; the message separates the class of the open finding F-FOOTER-REQUIRED — the envelope is well formed
+ * ("PAR1" ... <L> "PAR1" with 1 <= L <= k-8, the bound carquet itself applies), so acceptance was decided by the FileMetaData parser alone, which takes bytes without
+ * the required fields for a footer — from everything else (magic / length / size checks), which stays a plain violation. */
+static void accepted_prefix(carquet_reader_t* r, const uint8_t* buf, size_t k, int complete) {
+    if (!complete) {
+        int envelope = 0;
+        if (k >= 12 && memcmp(buf, "PAR1", 4) == 0 && memcmp(buf + k - 4, "PAR1", 4) == 0) {
+            uint32_t L = (uint32_t)buf[k - 8] | ((uint32_t)buf[k - 7] << 8) | ((uint32_t)buf[k - 6] << 16) | ((uint32_t)buf[k - 5] << 24);
+            envelope = (L >= 1 && L <= k - 8);
+        }
+#ifdef EXCLUDE_F_FOOTER_REQUIRED
+        /* open known finding (reported through its witness program) */
+        if (envelope) { carquet_reader_close(r); return; }
+#endif
+        SYMX_ASSERT(!envelope, "a proper prefix of the file must be rejected [footer without required FileMetaData fields accepted]");
+        SYMX_ASSERT(0, "a proper prefix of the file must be rejected (it was opened although it does not even end in a footer length and magic)");
+    }
+    carquet_reader_close(r);
+}
 
 void harness(void) {
-    pq_schema_t s; static pq_column_t cols[PQ_MAXCOLS];
-    table(&s, cols);
+    int nspecs = vt_spec_count(VC_SPECS);
+    int si = nspecs > 1 ? symx_choice(nspecs, "table") : 0;
+    int nc = vt_table(&S, C, vt_spec_at(VC_SPECS, si), VC_ROWS, VC_FLAVOUR);
+    SYMX_ASSERT(nc > 0, "harness: bad table spec");
     carquet_writer_options_t wo; carquet_writer_options_init(&wo);
-    wo.compression = CODEC;
-#ifdef PAGE_SIZE
-    wo.page_size = PAGE_SIZE;
-#endif
-    int rg[2] = { ROWS - ROWS / 2, ROWS / 2 };
-    pq_wstat_t ws;
-#if MODE == 1
-    int rc = pq_write(PATH, &s, cols, rg, 2, 0, &wo, &ws);
-    symx_assume(rc == 0);
+    wo.compression = CODEC; wo.page_size = VC_PS; wo.write_statistics = VC_STATS;
+    int rg[4]; vt_split(VC_ROWS, VC_NRG, rg);
+    pq_wstat_t ws; FILE* fp = NULL;
+#if VC_MODE == 1
+    int rc = vt_write(PATH, VC_FILEAPI, &S, C, rg, VC_NRG, VC_BATCH, &wo, &ws, &fp);
+    if (fp) fclose(fp);
+    SYMX_ASSERT(rc == 0, "harness precondition: the fault-free write of the table succeeds");
     size_t len = symx_file_get(PATH, filebuf, sizeof filebuf);
-    symx_assume(len != (size_t)-1 && len > 12);
+    SYMX_ASSERT(len != (size_t)-1 && len > 12, "harness precondition: the written file exists");
     symx_observe_int(len, "file length");
     /* the complete file opens */
     carquet_error_t err; memset(&err, 0, sizeof err);
     carquet_reader_t* full = carquet_reader_open_buffer(filebuf, len, NULL, &err);
     SYMX_ASSERT(full != NULL, "the complete file opens");
-    SYMX_ASSERT(carquet_reader_num_rows(full) == ROWS, "complete file has all rows");
+    SYMX_ASSERT(carquet_reader_num_rows(full) == VC_ROWS, "complete file has all rows");
     carquet_reader_close(full);
-    /* symbolic cut */
-    uint16_t k; symx_make_symbolic(&k, 2, "cut");
-    symx_assume(k < len);
+    /* every cut */
+    size_t k = (size_t)symx_choice((int)len, "cut");
     uint8_t* cutbuf = malloc(k ? k : 1); symx_assume(cutbuf != NULL);   /* exact-size: reads past the cut are bounds violations */
     memcpy(cutbuf, filebuf, k);
-  #if OPENMODE == 0
-    memset(&err, 0, sizeof err);
-    carquet_reader_t* r = carquet_reader_open_buffer(cutbuf, k, NULL, &err);
-    SYMX_ASSERT(r == NULL, "a proper prefix of the file must be rejected (open_buffer)");
+    carquet_reader_t* r = open_prefix(cutbuf, k, &err);
+    if (r != NULL) { accepted_prefix(r, cutbuf, k, 0); free(cutbuf); return; }
     SYMX_ASSERT(err.code != CARQUET_OK, "rejection carries a non-OK error code");
-  #else
-    symx_file_put("/mem/cut.parquet", cutbuf, k);
-    carquet_reader_options_t ro; carquet_reader_options_init(&ro);
-    ro.use_mmap = (OPENMODE == 2);
-    memset(&err, 0, sizeof err);
-    carquet_reader_t* r = carquet_reader_open("/mem/cut.parquet", &ro, &err);
-    SYMX_ASSERT(r == NULL, "a proper prefix of the file must be rejected (open by path)");
-    SYMX_ASSERT(err.code != CARQUET_OK, "rejection carries a non-OK error code");
-  #endif
     free(cutbuf);
-#elif MODE == 2
+    symx_check_leaks();
+#elif VC_MODE == 2
     symx_fault_io(1);
-    int rc = pq_write(PATH, &s, cols, rg, 2, 0, &wo, &ws);
+    int rc = vt_write(PATH, VC_FILEAPI, &S, C, rg, VC_NRG, VC_BATCH, &wo, &ws, &fp);
     symx_fault_io(0);
+    if (fp) fclose(fp);                   /* the caller's own stream (carquet_writer_create_file does not own it) */
     if (symx_io_failed()) {
         SYMX_ASSERT(!ws.create_ok || rc != 0, "a sink failure (write/flush/close) must surface as a non-OK writer call, at the latest from close");
     } else {
         SYMX_ASSERT(rc == 0, "fault-free write succeeds");
     }
     symx_check_leaks();
-#elif MODE == 3
-    /* abort after a symbolic-choice prefix of the call history */
+#elif VC_MODE == 3
     carquet_error_t err; memset(&err, 0, sizeof err);
-    carquet_schema_t* sc = pq_make_schema(&s);
+    carquet_schema_t* sc = pq_make_schema(&S);
     symx_assume(sc != NULL);
-    carquet_writer_t* w = carquet_writer_create(PATH, sc, &wo, &err);
-    symx_assume(w != NULL);
-    int stop = symx_choice(4, "abort after");
-    if (stop >= 1) (void)carquet_writer_write_batch(w, 0, cols[0].vals, ROWS, NULL, NULL);
-    if (stop >= 2) (void)carquet_writer_write_batch(w, 1, cols[1].vals, ROWS, s.rep[1] == CARQUET_REPETITION_REQUIRED ? NULL : cols[1].def, NULL);
-    if (stop >= 3) (void)carquet_writer_new_row_group(w);
+    carquet_writer_t* w = vt_create(PATH, VC_FILEAPI, sc, &wo, &fp, &err);
+    SYMX_ASSERT(w != NULL, "harness precondition: the writer can be created");
+    static vt_op_t ops[VT_MAXOPS];
+    int nops = vt_history(&S, rg, VC_NRG, VC_BATCH, ops);
+    int stop = symx_choice(nops + 1, "abort after");
+  #ifdef VC_ABORT_FAULT
+    symx_fault_io(1);                     /* one sink fault somewhere in the prefix or in abort's own fclose */
+  #endif
+    for (int i = 0; i < stop; i++) (void)vt_apply(w, &S, C, &ops[i]);
+  #ifdef VC_ABORT_BADOP
+    {   /* calls the writer rejects: a column index out of range and a negative one */
+        int32_t z = 0;
+        carquet_status_t b1 = carquet_writer_write_batch(w, S.ncols, &z, 1, NULL, NULL);
+        carquet_status_t b2 = carquet_writer_write_batch(w, -1, &z, 1, NULL, NULL);
+        symx_observe_int((uint64_t)(b1 != CARQUET_OK) * 2 + (b2 != CARQUET_OK), "rejected calls");
+    }
+  #endif
     carquet_writer_abort(w);
+    symx_fault_io(0);
+    if (fp) fclose(fp);
     carquet_schema_free(sc);
+  #if !VC_FILEAPI
     SYMX_ASSERT(symx_file_size(PATH) == (size_t)-1, "abort leaves no file behind for a path-based writer");
+  #endif
+    symx_check_leaks();
+#elif VC_MODE == 4
+    /* one REQUIRED BYTE_ARRAY column (plus what VC_SPECS says behind it); value VC_TROW is 8 bytes  <L> "PAR1".  First pass with a
+     * concrete marker to find where the value lands in the file, second pass with L symbolic (same layout: only 4 body bytes differ). */
+    static uint8_t tailval[8] = {0xDD, 0xCC, 0xBB, 0xAA, 'P', 'A', 'R', '1'};
+    SYMX_ASSERT(S.type[0] == CARQUET_PHYSICAL_BYTE_ARRAY && S.rep[0] == CARQUET_REPETITION_REQUIRED, "harness: MODE 4 needs spec S...");
+    C[0].ba[VC_TROW].data = tailval; C[0].ba[VC_TROW].length = 8;
+    int rc = vt_write(PATH, VC_FILEAPI, &S, C, rg, VC_NRG, VC_BATCH, &wo, &ws, &fp);
+    if (fp) fclose(fp);
+    SYMX_ASSERT(rc == 0, "harness precondition: the fault-free write of the table succeeds");
+    size_t len = symx_file_get(PATH, filebuf, sizeof filebuf);
+    SYMX_ASSERT(len != (size_t)-1 && len > 12, "harness precondition: the written file exists");
+    size_t at = 0; int found = 0;
+    for (size_t i = 0; i + 8 <= len; i++) if (memcmp(filebuf + i, tailval, 8) == 0) { at = i; found++; }
+    SYMX_ASSERT(found == 1, "harness: the marker value appears exactly once in the file");
+    symx_observe_int(at, "offset of the tail-like value");
+    size_t k = at + 8;
+    SYMX_ASSERT(k < len, "harness: the cut is a proper prefix");
+    uint8_t* cutbuf = malloc(k); symx_assume(cutbuf != NULL);
+    memcpy(cutbuf, filebuf, k);
+    symx_make_symbolic(cutbuf + at, 4, "L");
+    carquet_error_t err;
+    carquet_reader_t* r = open_prefix(cutbuf, k, &err);
+    if (r != NULL) {
+        /* accepted: only allowed when the prefix is itself a complete Parquet file — decided by the reference reader
+         * (its capacity limits are not format rules: such prefixes stay undecided) */
+        static ref_pq_file rf; ref_pq_open_opts ropts; memset(&ropts, 0, sizeof ropts);
+        int rrc = ref_pq_open_ex(cutbuf, k, &ropts, &rf);
+        symx_assume(rrc != REF_ERR_PQ_CAPACITY && rrc != REF_ERR_PQ_SCHEMA_DEPTH && rrc != REF_ERR_PQ_TOO_MANY_LEAVES);
+        accepted_prefix(r, cutbuf, k, rrc == 0);
+    } else {
+        SYMX_ASSERT(err.code != CARQUET_OK, "rejection carries a non-OK error code");
+    }
+    free(cutbuf);
     symx_check_leaks();
 #endif
 }
